@@ -26,9 +26,6 @@ verus! {
 //@ const actors/miner/src/types.rs CRON_EVENT_PROCESS_EARLY_TERMINATIONS
 pub type CronEvent = i64;
 
-//@ fn actors/miner/src/partition_state.rs PowerPair::is_zero
-    ensures r == (self.raw@ == 0 && self.qa@ == 0),
-//@ end
 pub open spec fn is_power_update(s: SendRec) -> bool { s.to == STORAGE_POWER_ACTOR_ADDR && s.method == ext::power::UPDATE_CLAIMED_POWER_METHOD }
 pub open spec fn is_cron_enrol(s: SendRec) -> bool { s.to == STORAGE_POWER_ACTOR_ADDR && s.method == ext::power::ENROLL_CRON_EVENT_METHOD }
 
